@@ -145,3 +145,7 @@ func Or(a, b bool) bool  { return a || b }
 // MapOrder selects the map iteration schedule of the executor
 // (0 insertion order, 1 reversed, 2 rotated by one).
 func MapOrder(mode int) {}
+
+// Hook registers a harness-side callback for an environment stub
+// ("flock": func(fd, how int) bool, "now": func() int64, ...).
+func Hook(name string, f any) {}
